@@ -140,8 +140,8 @@ impl Property for C07 {
     }
     fn cases(&self, tier: Tier) -> u32 {
         match tier {
-            Tier::Quick => 1500,
-            Tier::Thorough => 16000,
+            Tier::Quick => 15_000,
+            Tier::Thorough => 150_000,
         }
     }
     fn rule(&self) -> String {
